@@ -31,7 +31,7 @@ def sim_request(scn, trace, n_ticks=None):
         "oracle": [[c, rs] for c, rs in orc.items()],
         "t0": scn.get("t0", 0), "r0": 0,
         "speed_num": scn.get("speed", [1, 1])[0], "speed_den": scn.get("speed", [1, 1])[1],
-        "stims": stims, "n_ticks": n_ticks if n_ticks is not None else scn.get("n_ticks", 3),
+        "stims": stims, "n_ticks": n_ticks if n_ticks is not None else max(0, scn.get("n_ticks", 3) - 1),
     }
 
 
